@@ -76,6 +76,12 @@ CHECKS.update({
 CHECKS["C11"] = (True, "exploration", "real node + real api_v1_subs/matcher tasks under generated query templates x histories (local, remote complete, remote chunked/buffered); quiescence from hook log; oracle = user's SELECT re-run vs materialised rows vs fold of the event stream",
     "Runtime monitor: 3-6 concurrent subscriptions from 19 query templates (filters, expressions, CASE/BETWEEN/LIKE/IN, key-only projections, INNER and LEFT joins over 2-3 tables, aliases, composite and nullable-side keys) on one real node; histories of local transactions and of changesets authored by a second real node, delivered complete or cut into chunks (buffered apply), in any order; at logical matcher quiescence (hook log: match.sent == match.recv and idle) the monitor compares the materialised rows with the query re-run on the node database, the fold of the stream (rows + change events, by row id) with the materialised rows, checks change ids +1, update events that change nothing, insert/delete events for present/absent row ids, and events emitted although no table changed.",
     "§3-C11", "LEFT JOIN divergence after a nullable-side-only change is the known finding F7; histories that keep nullable-side changes together with the joined left-hand rows judge LEFT JOIN strictly")
+CHECKS["C14"] = (True, "exploration", "real node + real api_v1_updates listeners under generated histories (local, remote complete / chunked / late / out of order); quiescence and the set of notifications handed out from the hook log; oracle = per-operation table snapshots vs notifications, per-key fold vs row existence, causal lengths per key",
+    "Runtime monitor: update-feed listeners on 1-3 tables of one real node; histories over few keys with inserts, updates, deletes, re-inserts and key changes applied locally and merged from a second real node in any arrival order and batching; at logical quiescence of the feed task the monitor reads exactly the notifications the upd.notify hook announced and checks that every key whose row differs between the snapshots around an operation was notified, that the last notification of every key says delete iff the row is absent, and that the causal lengths behind the notifications of one key never decrease.",
+    "§3-C14", "cache roll-over (more than 2000 keys) is not reached by the quick tier's key domain")
+CHECKS["C12"] = (True, "exploration", "real node, real api_v1_subs / api_v1_sub_by_id / catch_up_sub under a concurrent writer, attach/resume at seeded moments with seeded delays at hook points; every attached stream recorded at the client side and judged against the stream of the first subscriber; scripted HTTP/2 server streams with seeded anomalies against the real klukai-client SubscriptionStream",
+    "Runtime monitor: while a writer commits bursts of 1-1500 changed rows, 2-8 subscriber tasks attach 2-4 times each (from scratch, skip_rows, from=N anywhere in the log, GET by id or POST of the same SQL) with seeded delays inside catch_up_sub, its queue task, and between the matcher's event emission and commit; each attached stream is compared with the primary stream: snapshot == fold of the primary up to the snapshot's change id, first id right after the snapshot / N, ids +1, every change identical to the primary's change of that id, no duplicates, nothing after a gap. The client library is fed scripted streams with a gap, duplicate or backward id and must yield MissedChange exactly there.",
+    "§3-C12", "executions are real concurrency: a given exec seed fixes the schedule of requests and delays, not the interleaving; pruned change logs and resume points beyond the newest id are outside")
 
 NOT_YET = {
 }
